@@ -461,6 +461,16 @@ def gen_malformed(real, rng, thorough):
                 if thorough or r is real.rules[ty][0]:
                     kind = aps[0].kind
                     out.append((line_for(r, '1', NODES, {0: '{a}}'}, set(), ''), 'stray-close-' + kind, ty))
+    # a node missing in front of the keyword of a keyword rule (`V1 1 dc 5`)
+    for ty in types:
+        for r in real.rules[ty]:
+            nb = r.pos if r.pos is not None else 0
+            if nb >= 2 and all(p.kind in ('node', 'pin') for p in r.params[:nb]):
+                aps = arg_params(r)
+                full = line_for(r, '1', NODES, {i: str(i + 2) for i, p in enumerate(aps) if not p.optional}, set(), '')
+                toks = full.split(' ')
+                del toks[nb]          # toks[0] is the name: drop the last node before the keyword
+                out.append((' '.join(toks), 'too-few-nodes-keyword', ty))
     # unknown component types
     letters = 'ABCDEFGHIJKLMNOPQRSTUVWXYZabcdefghijklmnopqrstuvwxyz'
     for a in letters:
@@ -638,6 +648,8 @@ def run(chk, replay=None):
                 return 'value-equals-name-default-not-name'
             if any(str(x) == '' for x in sargs):
                 return 'empty-value'
+            if any('=' in str(x) and str(x)[:1] not in ('{', '"') and not any(d in str(x) for d in real.grammar.delimiters) for x in sargs):
+                return 'value-contains-equals'
             if any(str(x)[:1] in ('{', '"') for x in sargs):
                 return 'value-starts-with-quote'
             return 'other'
@@ -1042,6 +1054,9 @@ def run(chk, replay=None):
     for v in ['{Piecewise((1, t > 0), (2, True))}', '{Max(t, 2) * Heaviside(t - (1 + 2))}', '{exp(-(t, )[0])}']:
         hyp.append(('V1 1 0 %s' % v, 'nested', 'V'))
         hyp.append(('I1 1 0 %s\nR1 1 0 2' % v, 'nested', 'I'))
+    for v in ['{a>=b}', '{a<=b}', '{x!=1}']:
+        hyp.append(('BAT1 1 2 %s' % v, 'value-contains-equals', 'BAT'))
+        hyp.append(('R1 1 2 %s' % v, 'value-contains-equals', 'R'))
     hyp.append(('R1 1 2; def=foo', 'opts-def', 'R'))
     hyp.append(('R1 1 2; def=foo, def=bar, right', 'opts-def', 'R'))
     for (text, what, cls) in hyp:
@@ -1147,6 +1162,103 @@ def run(chk, replay=None):
         chk.count('rewrite', rw)
         roundtrip_case(text, {'rule': 'rewrite:' + rw}, 'rewrite')
 
+    # ---- 3e''. network -> netlist emission (netlistmaker / netlisthelper): one-port trees over leaves with numeric
+    # values (named automatically: R1, C1, ...), symbolic values spelt like such an automatic name, and other symbols, in
+    # every order.  The emitted text must describe the network: one line per leaf and wire, all names distinct (the
+    # model's element table, a dict like Lcapy's, must keep one entry per line), the parsed components carry exactly the
+    # leaves' (type, value) multiset, and the text round-trips (same oracle as everywhere else).
+    from lcapy import R as _R, L as _L, C as _C
+    MK = {'R': _R, 'L': _L, 'C': _C}
+
+    def leaf_pool(ty):
+        return [(ty, 10), (ty, 2), (ty, ty + '1'), (ty, ty + '2'), (ty, ty + 'x')]
+
+    def mkleaf(lf):
+        return MK[lf[0]](lf[1])
+
+    def build(shape, leaves):
+        n = [mkleaf(l) for l in leaves]
+        if shape == 's2':
+            return n[0] + n[1]
+        if shape == 'p2':
+            return n[0] | n[1]
+        if shape == 's(p)':
+            return n[0] + (n[1] | n[2])
+        if shape == '(s)p':
+            return (n[0] + n[1]) | n[2]
+        if shape == 'p(s)':
+            return n[0] | (n[1] + n[2])
+        if shape == '(p)s':
+            return (n[0] | n[1]) + n[2]
+        raise ValueError(shape)
+
+    emis = []
+    for ty in ('R', 'L', 'C'):
+        pool = leaf_pool(ty)
+        for a in pool:
+            for b in pool:
+                for shape in ('s2', 'p2'):
+                    if not thorough and ty != 'R' and (pool.index(a) + pool.index(b)) % 2 == 1:
+                        continue
+                    emis.append((shape, [a, b]))
+    trip = [('R', 10), ('R', 'R1'), ('R', 'R2')]
+    for a in trip:
+        for b in trip:
+            for c3 in trip:
+                for shape in ('s(p)', '(s)p', 'p(s)', '(p)s'):
+                    if not thorough and shape in ('(s)p', '(p)s') and a == b == c3:
+                        continue
+                    emis.append((shape, [a, b, c3]))
+    for shape, leaves in [('s(p)', [('R', 5), ('L', 3), ('L', 'L1')]), ('p(s)', [('C', 2), ('R', 1), ('C', 'C1')]),
+                          ('(s)p', [('L', 3), ('C', 'C1'), ('C', 4)]), ('(p)s', [('C', 'C2'), ('C', 1), ('C', 7)])]:
+        emis.append((shape, leaves))
+    for shape, leaves in emis:
+        try:
+            net = build(shape, leaves)
+            layouts = ('horizontal', 'vertical') if thorough else ('horizontal',)
+            texts = [net.netlist(layout=lay) for lay in layouts]
+        except Exception as ex:   # noqa
+            chk.count('network-emission', 'skipped:' + type(ex).__name__)
+            continue
+        for text in texts:
+            lines = [l.strip() for l in text.strip().split('\n') if l.strip() != '']
+            desc = '%s %s' % (shape, ' '.join('%s(%s)' % l for l in leaves))
+            chk.case('network-emission:' + desc + ':' + text, True)
+            # (i) the model's element table (dict semantics, Lean) keeps one entry per line
+            mp = drv.ask1('c06.print ' + ' '.join(enc(l) for l in lines))
+            n_model = len(mp.split(' ')) if mp and not mp.startswith('err') else -1
+            recs, errp = real.stub_parse(text)
+            chk.coverage['correspondence']['compared'] += 1
+            if errp is None and n_model != len(recs):
+                disagree('network-emission-table-size', text, len(recs), mp[:80])
+            bad = None
+            if errp is not None:
+                bad = ('reparse-error', errp)
+            elif len(recs) != len(lines) or n_model != len(lines):
+                bad = ('duplicate-name', 'lines %d, components after parsing %d (model %d)' % (len(lines), len(recs), n_model))
+            else:
+                want = sorted((l[0], str(real.lcapy.expr(l[1]).sympy)) for l in leaves)
+                got = []
+                for r in recs:
+                    if r.type in ('W', 'O', 'P', 'XX'):
+                        continue
+                    v = r.args[0] if r.args else None
+                    try:
+                        got.append((r.type, str(real.lcapy.expr(v).sympy)))
+                    except Exception:   # noqa
+                        got.append((r.type, str(v)))
+                if sorted(got) != want:
+                    bad = ('leaf-values', 'leaves %s, parsed %s' % (want, sorted(got)))
+            chk.count('network-emission', 'ok' if bad is None else 'differs:' + bad[0])
+            if bad is not None:
+                state['cex'] += 1
+                chk.counterexample({'kind': 'network-emission', 'clause': bad[0]},
+                                   {'input': desc, 'lcapy': {'netlist': text, 'detail': bad[1]},
+                                    'spec': 'network.netlist(): one uniquely named line per leaf, parsed components carry the leaves\' values'},
+                                   'the netlist emitted for a network does not describe the network (%s)' % bad[0])
+                continue
+            roundtrip_case(text, {'rule': 'network-emission', 'stream': desc}, 'network-emission')
+
     # ---- 3e'. computed values: what the printer writes for a SymPy value must be read back as the same value
     S = real.sympy
     try:
@@ -1200,7 +1312,16 @@ def run(chk, replay=None):
                         bad = (e1.name, str(s1)[:200], str(s2)[:200], str(e1), str(e2))
                         break
             except Exception as ex:   # noqa
-                chk.count('rewrite-preserves', '%s:skipped:%s' % (rw, type(ex).__name__))
+                chk.count('rewrite-preserves', '%s:raises:%s' % (rw, type(ex).__name__))
+                # copy() / subs() of an unrelated symbol are defined for every netlist Lcapy accepts
+                suff = any(isinstance(real.value_parser(str(a)), float) and not str(a).replace('.', '', 1).lstrip('-').isdigit()
+                           for e0 in c0._elements.values() for a in e0.args if a is not None)
+                cause = 'suffix-not-understood' if suff and 'Invalid expression' in str(ex) else type(ex).__name__
+                state['cex'] += 1
+                chk.counterexample({'kind': 'rewrite-raises', 'rewrite': rw, 'cause': cause},
+                                   {'input': text, 'lcapy': {'error': str(ex)[:200]},
+                                    'spec': '%s is defined for every accepted netlist' % rw},
+                                   '%s raises on an accepted netlist' % rw)
                 continue
             chk.count('rewrite-preserves', '%s:%s' % (rw, 'same' if bad is None else 'differs'))
             chk.case('rewrite-preserves:%s:%s' % (rw, text), True)
@@ -1216,6 +1337,50 @@ def run(chk, replay=None):
                                                               'printed_before': bad[3], 'printed_after': bad[4]},
                                     'spec': '%s keeps the value of every component' % rw},
                                    '%s changes the value of %s' % (rw, bad[0]))
+
+    # ---- 3e'''. engineering suffixes denote the same quantity for every component kind (analysis level)
+    SUFF_CCTS = [('V1 1 0 1\nR1 1 2 %s\nR2 2 0 30k', '10k', '10000'), ('V1 1 0 1\nE1 2 0 1 0 %s\nR1 2 0 1', '10k', '10000'),
+                 ('I1 1 0 1\nR1 1 0 1\nG1 2 0 1 0 %s\nR2 2 0 1', '2m', '0.002'), ('V1 1 0 1\nR0 1 0 1\nF1 2 0 V1 %s\nR1 2 0 1', '3k', '3000'),
+                 ('V1 1 0 1\nR0 1 0 1\nH1 2 0 V1 %s\nR1 2 0 1', '3k', '3000'), ('V1 1 0 1\nGY1 2 0 1 0 %s\nR1 2 0 1', '2k', '2000'),
+                 ('V1 1 0 step %s\nR1 1 2 1\nR2 2 0 1', '10k', '10000'), ('V1 1 0 1\nR1 1 2 1\nC1 2 0 %s', '1u', '0.000001')]
+    for tmpl, sv, nv in SUFF_CCTS:
+        kind = tmpl.split('\n')[1].split(' ')[0] if 'step' not in tmpl else 'Vstep'
+        try:
+            b = real.circuit(tmpl % nv)[2].V(real.lcapy.s).sympy
+        except Exception as ex:   # noqa
+            chk.count('suffix-analysis', 'skipped:' + type(ex).__name__)
+            continue
+        try:
+            a = real.circuit(tmpl % sv)[2].V(real.lcapy.s).sympy
+            good = S.simplify(S.nsimplify(a) - S.nsimplify(b)) == 0
+            detail = str(a)
+        except Exception as ex:   # noqa
+            good = False
+            detail = '%s: %s' % (type(ex).__name__, str(ex)[:100])
+        chk.count('suffix-analysis', 'same' if good else 'differs:' + kind)
+        chk.case('suffix-analysis:' + tmpl % sv, True)
+        if not good:
+            state['cex'] += 1
+            chk.counterexample({'kind': 'suffix', 'cause': 'suffix-not-understood', 'where': 'analysis'},
+                               {'input': tmpl % sv, 'lcapy': {'with_suffix': detail, 'with_number': str(b)},
+                                'spec': 'a value with an engineering suffix denotes mantissa x 10^k for every component kind'},
+                               'engineering suffix not understood by %s' % kind)
+
+    # ---- 3e''''. allow_anon=True names only the components that have no id
+    try:
+        ca = real.Circuit(allow_anon=True)
+        ca.add('R1 1 2 3\nW 2 0\nC_x 2 0 1')
+        got = list(ca._elements.keys())
+        chk.count('allow-anon', 'names-kept' if got[0] == 'R1' and got[2] == 'C_x' else 'renamed')
+        chk.case('allow-anon', True)
+        if not (got[0] == 'R1' and got[2] == 'C_x'):
+            state['cex'] += 1
+            chk.counterexample({'kind': 'parse', 'cause': 'allow-anon-renames-named'},
+                               {'input': 'Circuit(allow_anon=True): R1 1 2 3 / W 2 0 / C_x 2 0 1', 'lcapy': {'names': got},
+                                'spec': 'explicitly named components keep their names'},
+                               'allow_anon=True renames explicitly named components')
+    except Exception as ex:   # noqa
+        chk.count('allow-anon', 'skipped:' + type(ex).__name__)
 
     # ---- 3f. same analysis results after the round trip (a few solvable circuits)
     n_an = 3 if not thorough else len(REWRITE_CIRCUITS)
